@@ -117,9 +117,10 @@ def run(sc):
             if idx >= k and not sim.node(name).silent:
                 sim.silence(sim.node(name))
     sim.on_frame = on_frame if sil else None
-    sim.drop = (lambda idx, src, fr: idx in drops) if drops else None
-
     t0 = sim.now_us
+    until = sc.get("drop_until")
+    sim.drop = (lambda idx, src, fr: idx in drops and (until is None or sim.now_us - t0 < until)) if drops else None
+
     stim = []
     for s in sc.get("sends", []):
         stim.append((s["t"], 0, s))
@@ -146,6 +147,7 @@ def run(sc):
             sim.inject(n, s["id"], s["data"], fd=s.get("fd", False))
     sim.run(sc.get("dur", 2_000_000))
     sim.log({"ev": "end", "node": sc["nodes"][0]["name"]})
-    expect = {"all": False, "idle": False, "slack": 0}
+    expect = {"all": False, "idle": False, "slack": 0,
+              "bus": not (sc.get("drop") or sc.get("silence") or sc.get("hostile"))}
     expect.update(sc.get("expect", {}))
     return {"cfg": cfg, "ev": sim.trace, "expect": expect, "meta": {"scenario": sc}}, sim
